@@ -372,6 +372,7 @@ def run_impl(case):
     obs["mem0"] = mem_nodes(mem0_raw, nmap)
     if obs["keyerror"]:
         return obs
+    obs["newmem"] = mem_nodes(list(pb.memory[2 + len(mem0_raw):]), nmap)
     obs["clauses"] = [[[nmap.var(l.v), bool(l.s)] for l in c] for c in sm.clauses]
     obs["vtable"] = [nmap.var(v) for v in sm.vtable[1:]]
     if obs["zerodiv"]:
@@ -479,20 +480,25 @@ def to_coq_solve(case, obs):
          f"{gdict(obs['prevx'])} {gdict(obs['nextx'])} {gdict(obs['prevy'])} {gdict(obs['nexty'])} "
          f"{gbool(obs['keyerror'])} ")
     if obs["keyerror"]:
-        o += "[] false [] 0%Z [] [])"
+        o += "[] false [] 0%Z [] [] [])"
     else:
         o += (f"{glist([glist([glit(l) for l in c]) for c in obs['clauses']])} {gbool(obs['sat'])} "
               f"{glist([gvar(v) for v in obs.get('true', [])])} {gz(obs['ret'][0])} "
-              f"{glist([gbox(r) for r in obs['rects']])} {glist([gvar(v) for v in obs['vtable']])})")
-    e = (f"c08_check Repaired {gproblem(case)} {case['k']} {gq(case['factor'])} {gq(case['ratio'])} "
-         f"{gz(case['bound'])} {gmem(obs['mem0'])} {o}")
+              f"{glist([gbox(r) for r in obs['rects']])} {glist([gvar(v) for v in obs['vtable']])} "
+              f"{gmem(obs['newmem'])})")
+    # small grids: ALL models of the implementation's formula against the specification; this also decides when the
+    # formula differs from the model's in form (not only in clause order / internal numbering)
+    models = None
+    if "models" in obs and len(obs["models"]) <= 4000:
+        ms = glist([glist([glist([gbool(x) for x in row]) for row in m]) for m in obs["models"]])
+        models = (f"c08_models_check {gproblem(case)} {case['k']} {gq(case['factor'])} {gq(case['ratio'])} "
+                  f"{gz(case['bound'])} {ms}")
+    chk = (f"c08_check Repaired {gproblem(case)} {case['k']} {gq(case['factor'])} {gq(case['ratio'])} "
+           f"{gz(case['bound'])} {gmem(obs['mem0'])} {o}")
+    e = f"(let models_ok := {models or 'false'} in {chk} models_ok{' && models_ok' if models else ''})"
     if not obs["keyerror"]:
         e = (f"({e}) && c08_quality_check {gproblem(case)} {gq(case['factor'])} {gq(case['ratio'])} {gz(obs['tba'])} "
              f"{gbool(obs['sat'])} {glist([gvar(v) for v in obs.get('true', [])])} {gq(obs['quality'])}")
-    if "models" in obs and len(obs["models"]) <= 4000:
-        ms = glist([glist([glist([gbool(x) for x in row]) for row in m]) for m in obs["models"]])
-        e = (f"({e}) && c08_models_check {gproblem(case)} {case['k']} {gq(case['factor'])} {gq(case['ratio'])} "
-             f"{gz(case['bound'])} {ms}")
     return e
 
 
